@@ -341,6 +341,15 @@ def build(spec):
             # load cases of very different magnitude in ONE block (exact power-of-two factors): every column is its own system
             cs = np.array(([1.0, 2.0 ** -30, 2.0 ** -37] * k)[:k])
             b = b * rng.permutation(cs)[None, :]
+        rng2 = np.random.default_rng(spec["seed"] + 7919)     # (a second stream: the cases of earlier corpora stay what they were)
+        if k is not None and k >= 2 and spec.get("zerocol", bool(rng2.random() < 0.3)):
+            # a load case WITHOUT load inside a block (an all-zero column needs no solve; its neighbours do)
+            b[:, int(rng2.integers(0, k))] = 0
+        # the same LinSolve instance has solved a system of a NARROWER class before (diagonal before coupled, complex symmetric
+        # before complex general, ...): whatever it chose for that matrix must not be used for this one
+        c.prime = spec.get("prime", bool(rng2.random() < 0.35))
+        c.prime_kind = str(rng2.choice(["diag", "spd", "csym", "symindef"]))
+        c.prime_seed = int(rng2.integers(0, 2 ** 31))
         choices = solver_choices(cls, sparse, cplx)
         sname = spec.get("solver", choices[int(rng.integers(0, len(choices)))] if rng.random() < 0.6 else None)
         flagmode = spec.get("flags", str(rng.choice(["none", "none", "hermitian", "symmetric", "both"])))
@@ -501,6 +510,32 @@ def run_impl(c):
             m = pm.LinSolve([sA, sb], **kw)
             if not c.lda:
                 m.use_lda_solver = False
+            if getattr(c, "prime", False) and c.solver is None and c.flagmode == "none":
+                # (only with the automatic solver choice and without user flags: both would be tied to the first matrix by design)
+                rp = np.random.default_rng(c.prime_seed)
+                n_ = c.A.shape[0]
+                pc = c.prime_kind == "csym" and (c.cplx or not c.sparse)
+                if c.prime_kind == "diag":
+                    Ap = np.diag(rp.uniform(1.0, 2.0, n_)) * (1.0 + 0j if c.cplx else 1.0)
+                elif c.prime_kind == "csym" and pc:
+                    Bp = rp.standard_normal((n_, n_)) + 1j * rp.standard_normal((n_, n_))
+                    Ap = (Bp + Bp.T) / 2 + n_ * np.eye(n_)
+                else:
+                    Ap = rand_matrix(rp, n_, "spd" if c.prime_kind in ("spd", "csym") else "symindef", c.cplx)
+                if c.sparse and not np.iscomplexobj(Ap) and np.iscomplexobj(c.b):
+                    Ap = Ap.astype(complex)
+                sA.state = wrap(Ap * float(np.abs(c.A).max()), c.sparse, c.fmt)
+                try:
+                    m.response()
+                    m.sig_out[0].sensitivity = c.w.copy()
+                    m.sensitivity()
+                    m.reset()
+                except Exception:
+                    m = pm.LinSolve([sA, sb], **kw)
+                    if not c.lda:
+                        m.use_lda_solver = False
+                sA.sensitivity, sb.sensitivity = None, None
+                sA.state, sb.state = wrap(c.A, c.sparse, c.fmt), c.b.copy()
             snapA = frozen(sA.state)
             m.response()
             out["input_clobbered"] = (not c.sparse) and frozen(sA.state) != snapA
